@@ -1,4 +1,5 @@
 CONSTANTS
+  Alias = FALSE
   MaxLen = 5
   ExportLen = 5
 INIT Init
